@@ -68,7 +68,11 @@ impl<'a> Lowerer<'a> {
 
     pub fn run(mut self) -> AssemblyProgram {
         // Lower all builtins
-        for builtin in self.sps_low.admin.builtins.values() {
+        // Declare externs in name order: the builtin table is a hash map, and the
+        // emitted assembly must not depend on its iteration order.
+        let mut builtins = self.sps_low.admin.builtins.values().collect::<Vec<_>>();
+        builtins.sort_by(|left, right| left.name.cmp(&right.name));
+        for builtin in builtins {
             let sk::Builtin { name, arity, sort } = builtin.clone();
             if let Some(mode) = ExternMode::for_builtin(sort) {
                 self.arena.externs.push(Extern { name, arity, mode });
